@@ -45,6 +45,17 @@ def gen_tokens(rng, ci, tag, n, used):
                 break
         kind = rng.choice(["raw", "raw", "env", "file"])
         env, files = {}, {}
+        ws = None
+        if rng.random() < 0.12:
+            # a token whose loaded value is white space only: it is a configured token like any other (no presented token can equal it,
+            # because presented tokens are trimmed) - an allowlist made of it admits nobody
+            ws = next((w for w in (" ", "\t", "  ", " \t ", "\t\t") if w not in used), None)
+        if ws is not None:
+            used.discard(val)
+            used.add(ws)
+            name = "VERIF_C11_%d_%s_%d" % (ci, tag.upper(), k)
+            out.append({"ref": "env:" + name, "val": ws, "env": {name: ws}, "files": {}, "ws": True})
+            continue
         if kind == "raw":
             ref = "raw:" + val
         elif kind == "env":
@@ -71,7 +82,7 @@ def gen_config(rng, ci):
         if mode == "route" or (mode == "both" and rng.random() < 0.7) or (mode == "mixed" and rng.random() < 0.4):
             own = gen_tokens(rng, ci, "r%d" % k, rng.randint(1, 2), used)
         routes.append({"route": "/r%d" % k, "endpoint": rng.choice(["/pull/r%d", "/q/r%d/x", "/r%d"]) % k, "tokens": own})
-    if mode == "both" and rng.random() < 0.3 and glob:
+    if mode == "both" and rng.random() < 0.3 and glob and not glob[0].get("ws"):
         # a route that also lists a global token explicitly, and one sharing another route's token
         routes[0]["tokens"] = routes[0]["tokens"] + [dict(glob[0], ref="raw:" + glob[0]["val"], env={}, files={})] if routes[0]["tokens"] else routes[0]["tokens"]
     shared = rng.random() < 0.25
@@ -122,13 +133,15 @@ def auth_variants(rng, good, others):
 
 def build_requests(rng, cfg, apaths, app_paths, quick):
     reqs = []
-    allvals = [t["val"] for t in cfg["glob"]] + [t["val"] for r in cfg["routes"] for t in r["tokens"]] + [t["val"] for t in cfg["admin"]]
+    def usable(ts):
+        return [t for t in ts if not t.get("ws")]
+    allvals = [t["val"] for t in usable(cfg["glob"])] + [t["val"] for r in cfg["routes"] for t in usable(r["tokens"])] + [t["val"] for t in usable(cfg["admin"])]
     pp = cfg["pull_prefix"]
     for r in cfg["routes"]:
         eff = r["tokens"] or cfg["glob"]
-        good = eff[0]["val"] if eff else None
+        good = usable(eff)[0]["val"] if usable(eff) else None
         others = [x for x in dict.fromkeys(allvals) if x not in [t["val"] for t in eff]][:4]
-        more_good = [t["val"] for t in eff[1:]]
+        more_good = [t["val"] for t in usable(eff)[1:]]
         variants = auth_variants(rng, good, others) + [["Bearer " + g] for g in more_good]
         for op in OPS:
             vs = variants if not quick else rng.sample(variants, min(len(variants), 14)) + [["Bearer " + good]] if good else variants
@@ -177,16 +190,16 @@ def build_requests(rng, cfg, apaths, app_paths, quick):
     # cross-route: a route's own token presented at another route's endpoint
     for r in cfg["routes"]:
         for r2 in cfg["routes"]:
-            if r is r2 or not r["tokens"]:
+            if r is r2 or not usable(r["tokens"]):
                 continue
             op = rng.choice(OPS)
             reqs.append({"kind": "pull", "method": L.hx("POST"), "target": L.hx(pp + r2["endpoint"] + "/" + op),
-                         "auth": [L.hx("Bearer " + r["tokens"][0]["val"])], "op": op, "lease_route": L.hx(r2["route"]), "_route": r2["route"]})
-            reqs.append({"kind": "worker", "transport": "grpc", "endpoint": L.hx(r2["endpoint"]), "auth": [L.hx("Bearer " + r["tokens"][0]["val"])],
+                         "auth": [L.hx("Bearer " + usable(r["tokens"])[0]["val"])], "op": op, "lease_route": L.hx(r2["route"]), "_route": r2["route"]})
+            reqs.append({"kind": "worker", "transport": "grpc", "endpoint": L.hx(r2["endpoint"]), "auth": [L.hx("Bearer " + usable(r["tokens"])[0]["val"])],
                          "op": op, "lease_route": L.hx(r2["route"]), "_route": r2["route"], "no_md": False, "bad_args": False})
     # admin: every path of the router
     ap = cfg["admin_prefix"]
-    agood = cfg["admin"][0]["val"] if cfg["admin"] else None
+    agood = usable(cfg["admin"])[0]["val"] if usable(cfg["admin"]) else None
     aothers = [x for x in dict.fromkeys(allvals) if x not in [t["val"] for t in cfg["admin"]]][:2]
     av = auth_variants(rng, agood, aothers)
     for path in apaths + app_paths + ["/", "/nope", "/healthz/", "/dlq/../healthz", "//healthz"]:
